@@ -11,7 +11,7 @@ open NakenVerif.Generated.SimTables NakenVerif.Generated.M6502Asm NakenVerif.M65
 
 /-! ## length -/
 
-theorem len_table : ∀ c < 256, 1 ≤ (disasm6502Len.getD c 0).toNat ∧ (disasm6502Len.getD c 0).toNat ≤ 3 := by
+theorem len_table : ∀ c < 256, 1 ≤ (disasm6502Len.toList.getD c 0).toNat ∧ (disasm6502Len.toList.getD c 0).toNat ≤ 3 := by
   decide +kernel
 
 /-- **C08, length bounds.**  For every byte sequence `disasm_6502` returns 1, 2 or 3: at least one byte, at most the
@@ -35,10 +35,9 @@ theorem disasm_len (addr : BitVec 32) (b0 b1 b2 : BitVec 8) : (disasm addr b0 b1
 /-! ## locality -/
 
 /-- every row's mode is one of the 15 enumerators, and for a defined opcode the returned length is `op_bytes[op]` -/
-theorem row_facts : ∀ c < 256, (table6502Opcodes.getD c ⟨M65XX_ERROR, 0, 0, 0⟩).op < 15 ∧
-    ((table6502Opcodes.getD c ⟨M65XX_ERROR, 0, 0, 0⟩).instr ≠ M65XX_ERROR →
-      (disasm6502Len.getD c 0).toNat = opBytes.getD (table6502Opcodes.getD c ⟨M65XX_ERROR, 0, 0, 0⟩).op 0 ∧
-      (table6502Opcodes.getD c ⟨M65XX_ERROR, 0, 0, 0⟩).instr < 98) := by
+theorem row_facts : ∀ c < 256, (rowN c).op < 15 ∧
+    ((rowN c).instr ≠ M65XX_ERROR →
+      (disasm6502Len.toList.getD c 0).toNat = opBytes.getD (rowN c).op 0 ∧ (rowN c).instr < 98) := by
   decide +kernel
 
 theorem op15 {op : Nat} (h : op < 15) : op = 0 ∨ op = 1 ∨ op = 2 ∨ op = 3 ∨ op = 4 ∨ op = 5 ∨ op = 6 ∨ op = 7 ∨ op = 8 ∨
